@@ -1035,7 +1035,7 @@ func (r *runner) checkSettings() error {
 	if !sameSet(sc.Ignored, m.statIgnList) {
 		return kernel.Violationf("config-report-mismatch", "GET /control/stats/config reports ignored=%q, the accepted list is %q", sc.Ignored, m.statIgnList)
 	}
-	return nil // TEMP r.checkClients()
+	return r.checkClients()
 }
 
 // checkClients reads the persistent clients back from the registry (what GET
